@@ -1,14 +1,20 @@
 # bin/check configuration of property C05 (a single dict expression)
-{'harness': 'c05',
- 'props': 'Props/C05.v',
+{'assumptions': ['max >= 1 for every declaration (not enforced by validation: finding F17)',
+                 'EDI: no_root_repeat (known finding F14) and input ends with a segment terminator (known '
+                 'finding F8)'],
+ 'harness': 'c05',
  'models': ['Model/Hier.v', 'Model/HierSpec.v'],
+ 'props': 'Props/C05.v',
  'trusted': ['leaf matchers enter machine_eq_spec as a Section variable (any matcher that takes between 1 '
              'and all of the remaining units); the csv2/fixedlength2 rows and header/footer matchers and the '
              'EDI name matcher are instances',
              'idr node linking is modelled as commit-on-completion (Model/Hier.v header); the delivered '
              'subtrees are compared with the implementation on every case',
              'tokenisation (lines, csv records, EDI segments) is outside this property: units are what the '
-             'tokenizers deliver'],
- 'assumptions': ['max >= 1 for every declaration (not enforced by validation: finding F17)',
-                 'EDI: no_root_repeat (known finding F14) and input ends with a segment terminator (known '
-                 'finding F8)']}
+             'tokenizers deliver',
+             'the FINAL_OUTPUT target filter enters filter_transparent as an arbitrary predicate on '
+             "completed instances; the correspondence uses the xpath .[not(.//f = 'X')] (antchfx/xpath, "
+             'trusted) over a flag column/element of every unit',
+             'EDI release-character handling belongs to the tokenizer (C07); here inputs with escaped '
+             'release characters and delimiters are fed through the real reader and every unit must be '
+             'consumed or reported, with its unescaped text']}
